@@ -20,6 +20,7 @@ import (
 	"path/filepath"
 	"regexp"
 	"sort"
+	"strconv"
 	"strings"
 	"time"
 
@@ -487,8 +488,10 @@ func (e *env) rpmOracle(name string, p pkg, a advisory, rc *rhelCase, prank, fra
 		below = prank < frank
 	case name == "aws" || name == "rhel":
 		below = true // unfixed: every version (epoch < 65535) is affected
-		if strings.Contains(p.version, "6553") {
-			return // generated epochs around the bound are for the model comparison only
+		if i := strings.Index(p.version, ":"); i >= 0 {
+			if ep, err := strconv.Atoi(strings.TrimSpace(p.version[:i])); err != nil || ep >= 65535 {
+				return // generated epochs at and above the 65535:0 bound are for the model comparison only
+			}
 		}
 	default: // oracle, suse, photon: bounded by the last known affected version
 		below = prank <= frank
